@@ -59,10 +59,10 @@ def drive_and_judge(ctx, scs, sweep=0, par=0, parvariants=3, variants="rotate"):
 
 def run(ctx):
     quick = ctx.quick
-    cfgs = ["MCEstablisher_quick.cfg"] if quick else ["MCEstablisher_thorough.cfg", "MCEstablisher_mid.cfg"]
+    cfgs = ["MCEstablisher_quick.cfg", "MCEstablisher_quick3.cfg"] if quick else ["MCEstablisher_thorough.cfg", "MCEstablisher_mid.cfg"]
     scs, states, trans, emitted = [], 0, 0, 0
     consts = {}
-    budget = 2400 if quick else 60000
+    budget = 1600 if quick else 36000
     for i, cfg in enumerate(cfgs):
         mc = ctx.model_check("MCEstablisher", cfg, workers=8 if quick else 16, timeout=300 if quick else 3000)
         scs += scenarios_from(ctx, mc, "m%d" % i, budget // len(cfgs))
@@ -71,14 +71,14 @@ def run(ctx):
         emitted += mc["emitted"]
         consts[cfg] = dict(states=mc["states"], transitions=mc["transitions"], depth=mc["depth"], scenarios=mc["emitted"])
     chosen = regression() + scs
-    s, nlines = drive_and_judge(ctx, chosen, sweep=10 if quick else 120, par=250 if quick else 4000,
+    s, nlines = drive_and_judge(ctx, chosen, sweep=6 if quick else 100, par=160 if quick else 3000,
                                 parvariants=3 if quick else 4, variants="rotate" if quick else "all")
     ctx.cov.update(dict(
         states=states, transitions=trans, traces_validated_against_impl=s["runs"],
         samples=s["samples"][:2], model_runs=consts, scenarios_emitted=emitted, scenarios_replayed=s["scenarios"],
         reconciles=s["reconciles"], sweep_runs=s["sweep_runs"], parallel_runs=s["par_runs"],
         parallel_choice_points=s["par_choices"], parallel_gate_timeouts=s["par_gate_timeouts"],
-        events=nlines, per_action_counts=s["counts"],
+        events=nlines, per_action_counts=s["counts"], formula_antecedent_hits=s["hits"],
         drift=dict(unmatched_calls=s["drift"], runs_with_drift=s["drift_runs"], by_abs=s["drift_by_abs"]),
         monitor_formulas=MON_FORMULAS, exhaustive=(emitted == len(scs)),
         checker_cmd="tlc MCEstablisher (M,G) -> harness/drivers/establisher on /repo (T) -> tlc MonEstablisher",
